@@ -40,6 +40,9 @@ type Cache struct {
 	ClusterID string
 	// proxy dns domain
 	DNSDomain string
+	// IPMode is the set of IP families the proxy supports: the service VIPs that become virtual host
+	// domains are filtered by it (Service.GetAddressForProxy / GetAllAddressesForProxy).
+	IPMode model.IPMode
 	// DNSCapture indicates whether the workload has enabled dns capture
 	DNSCapture bool
 	// DNSAutoAllocate indicates whether the workload should have auto allocated addresses for ServiceEntry
@@ -132,6 +135,8 @@ func (r *Cache) Key() any {
 	h.WriteString(r.ClusterID)
 	h.Write(Separator)
 	h.WriteString(r.DNSDomain)
+	h.Write(Separator)
+	h.WriteString(strconv.Itoa(int(r.IPMode)))
 	h.Write(Separator)
 	h.WriteString(strconv.FormatBool(r.DNSCapture))
 	h.Write(Separator)
